@@ -5,7 +5,11 @@ mod c02;
 mod c03;
 mod c04;
 mod c05;
+mod c06;
+mod c13;
 mod c14;
+mod c15;
+mod c17;
 mod c18;
 mod hist;
 mod l1;
@@ -26,7 +30,12 @@ fn main() {
         "C03" => c03::run(&args),
         "C04" => c04::run(&args),
         "C05" => c05::run(&args),
+        "C06" => c06::run(&args, c06::Mode::C06),
+        "C07" => c06::run(&args, c06::Mode::C07),
+        "C13" => c13::run(&args),
         "C14" => c14::run(&args),
+        "C15" => c15::run(&args),
+        "C17" => c17::run(&args),
         "C18" => c18::run(&args),
         "bench" => bench(),
         other => {
